@@ -225,6 +225,26 @@ def getLitIndexes (vertices lits : List PS) : List Nat :=
 
 def appendDelayed (v : PS) : MFM Unit := modify (fun s => { s with delayed := s.delayed ++ [v] })
 
+/-! F2 span membership on bit lists (the integer XOR basis of `check_dependency_one_leg`):
+the basis is kept ordered by leading bit, so one pass reduces. -/
+def xorB (a b : List Bool) : List Bool := List.zipWith (fun x y => x != y) a b
+def leadIdx (x : List Bool) : Option Nat := x.findIdx? (fun b => b)
+def reduceBy (basis : List (List Bool)) (x : List Bool) : List Bool :=
+  basis.foldl (fun x b =>
+    match leadIdx b with
+    | some i => if x.getD i false then xorB x b else x
+    | none => x) x
+def insertBasis (basis : List (List Bool)) (x : List Bool) : List (List Bool) :=
+  match leadIdx x with
+  | none => basis
+  | some i =>
+    let before := basis.takeWhile (fun b => match leadIdx b with | some j => j < i | none => true)
+    before ++ x :: basis.drop before.length
+/-- is `x` a product (up to phase) of some of the strings `vs`? -/
+def inSpan (vs : List (List Bool)) (x : List Bool) : Bool :=
+  let basis := vs.foldl (fun basis v => insertBasis basis (reduceBy basis v)) []
+  (reduceBy basis x).all (fun b => !b)
+
 /-- `check_dependency_one_leg(lighting)` -/
 def checkDependencyOneLeg (lighting : PS) : MFM Unit := do
   let ones ← getOneVertices
@@ -235,6 +255,13 @@ def checkDependencyOneLeg (lighting : PS) : MFM Unit := do
       if v.beq one then continue
       let nv ← liftErr (pq.multiply v)
       if mem vertices nv || nv.beq lighting then throw .dependent
+  -- a candidate anticommuting with the centre that is a product of single legs (an odd number of
+  -- them, possibly five or more) lies in the algebra of the star as well
+  match (← getLegs) with
+  | (center :: _) :: _ =>
+    if !(← liftErr (center.commutesWith lighting)) then
+      if inSpan (ones.map (·.bits)) lighting.bits then throw .dependent
+  | _ => pure ()
 
 def appendToCenter (lighting : PS) : MFM Unit := do
   checkDependencyOneLeg lighting
